@@ -322,6 +322,7 @@ func ruleT7(c *Ctx) {
 			body *ast.BlockStmt
 		}
 		var loops []fwdLoop
+		curSelAliases = selectorAliases(fd)
 		ast.Inspect(fd.Body, func(n ast.Node) bool {
 			switch x := n.(type) {
 			case *ast.RangeStmt:
@@ -710,7 +711,14 @@ func forwardIndexLoopOver(fs *ast.ForStmt, field string) (string, bool) {
 		return "", false
 	}
 	if field != "" {
-		sel, ok := ast.Unparen(call.Args[0]).(*ast.SelectorExpr)
+		arg := ast.Unparen(call.Args[0])
+		// ops := x.Operators; for i := 0; i < len(ops); i++ — a local alias of the field
+		if id, ok := arg.(*ast.Ident); ok && curSelAliases != nil {
+			if al, ok := curSelAliases[id.Name]; ok {
+				arg = al
+			}
+		}
+		sel, ok := arg.(*ast.SelectorExpr)
 		if !ok || sel.Sel.Name != field {
 			return "", false
 		}
@@ -750,5 +758,37 @@ func opConjuncts(info *types.Info, cond ast.Expr) []string {
 		}
 	}
 	walk(cond)
+	return out
+}
+
+// curSelAliases: locals of the function under analysis that are single-assignment aliases of a
+// field (`ops := x.Operators`); set with selectorAliases before walking a function.
+var curSelAliases map[string]*ast.SelectorExpr
+
+func selectorAliases(fd *ast.FuncDecl) map[string]*ast.SelectorExpr {
+	out := map[string]*ast.SelectorExpr{}
+	count := map[string]int{}
+	ast.Inspect(fd.Body, func(n ast.Node) bool {
+		as, ok := n.(*ast.AssignStmt)
+		if !ok || len(as.Lhs) != len(as.Rhs) {
+			return true
+		}
+		for i, l := range as.Lhs {
+			id, ok := l.(*ast.Ident)
+			if !ok {
+				continue
+			}
+			count[id.Name]++
+			if sel, ok := ast.Unparen(as.Rhs[i]).(*ast.SelectorExpr); ok && as.Tok == token.DEFINE {
+				out[id.Name] = sel
+			}
+		}
+		return true
+	})
+	for k := range out {
+		if count[k] != 1 {
+			delete(out, k)
+		}
+	}
 	return out
 }
